@@ -554,6 +554,16 @@ example : Inv id exT ∧ Abs exT exSpec.M ∧ exSpec.M 31 = some 310 ∧ exSpec.
 example : exSpec.M 23 = none ∧ exT.entries + 1 < exT.N ∧
     (match insert id exT 23 230 with | .ok (q, _) => q == 1 | _ => false) = true := by decide
 
+/-- `findOrInsert_spec`, both branches: 31 is found at bucket 0 with its value and nothing changes; 23 is new
+and lands in bucket 1 (after wrapping from its ideal bucket 7) -/
+example : (match findOrInsert id exT 31 5 with | .ok (true, 0, 310, t) => t.entries == 5 | _ => false) = true ∧
+    (match findOrInsert id exT 23 230 with | .ok (false, 1, 230, t) => t.entries == 6 | _ => false) = true := by decide
+
+/-- `Power2Mod`: wrap by mask, constructor test -/
+example : nextP2 8 7 = 0 ∧ nextP2 8 3 = 4 ∧ idealP2 id 8 31 = 7 ∧ isPow2 8 = true ∧ isPow2 12 = false ∧ isPow2 0 = false ∧
+    (doubleP2 id exT).map (fun t => (List.range 16).map t.s) = (double id exT).map (fun t => (List.range 16).map t.s) := by
+  decide
+
 /-- `Double` of it: 31 is buffered and wraps again (15 and 31 both have the new ideal bucket 15),
 3 moves back into the gap left by 10, 10 moves to the new half -/
 example : (double id exT).map (fun t => ((List.range 16).map t.s, t.N, t.entries)) =
